@@ -18,7 +18,8 @@ def run(ctx: Ctx, chk) -> None:
     chk.run_rule(error_propagates, ctx)
 
 
-def write_then_forget(ctx: Ctx, chk) -> None:
+def write_then_forget(ctx: Ctx, chk, loss_only: bool = False) -> None:
+    """loss_only (used by C12): only 'forgotten although not written' is refuted, not 'written again'."""
     rule = "WRITE-THEN-FORGET"
     chk.rule(rule, "in the flush every removal of an entry is dominated by the normal completion of the send of the entry bound in the same iteration (a failed write leaves the entry parked; a written entry is removed before the next one is tried); the buffer is never cleared wholesale")
     flushes = sb.flush_functions(ctx)
@@ -26,6 +27,8 @@ def write_then_forget(ctx: Ctx, chk) -> None:
     for f in flushes:
         fl = sb.analyse_flush(ctx, f)
         g = fl.cfg
+        if not fl.removes and loss_only:
+            continue
         if not fl.removes:
             chk.instance(rule)
             chk.refute(rule, f"{f.fq}::no-removal", "the flush never removes what it wrote: every wake writes the same commands again", f.where)
@@ -42,6 +45,12 @@ def write_then_forget(ctx: Ctx, chk) -> None:
             key = keyed[0]
             in_loop = sb._inside(fl.loop, r.ast)
             if not in_loop:
+                it_nodes = [x for x in g.nodes if x.kind == "iter" and x.ast is fl.loop]
+                after_loop = bool(it_nodes) and all(g.dominates(i, r) for i in it_nodes) and r.line > (fl.loop.end_lineno or 0)
+                via_failed = any(g.reach_avoiding([x for x, lab in s.succ if lab == "exc"], lambda y, r=r: y is r, lambda y: False, from_succ=False) is not None for s in fl.sends)
+                if loss_only and after_loop and not via_failed:
+                    chk.ok(rule, k, "removed only after the whole sending loop completed normally (nothing is forgotten unwritten)", ctx.loc(f, r.ast))
+                    continue
                 chk.refute(rule, k, f"`{norm(r.ast)[:70]}` removes outside the sending loop: it is not tied to the successful write of that entry", ctx.loc(f, r.ast))
                 continue
             if fl.key_name is None or norm(key) != fl.key_name:
@@ -68,7 +77,7 @@ def write_then_forget(ctx: Ctx, chk) -> None:
                 continue
             chk.ok(rule, k, f"dominated by the normal completion of `{norm(s.ast)[:60]}` of the same iteration", ctx.loc(f, r.ast))
         # every send is followed by a removal on the normal path (otherwise: written again at the next wake)
-        for s in fl.sends:
+        for s in ([] if loss_only else fl.sends):
             chk.instance(rule)
             k = fkey(f, s.ast) + "::then-remove"
             nxt = [x for x, lab in s.succ if lab != "exc"]
